@@ -79,6 +79,13 @@ def run(rep, work, tier, seed, only=None):
                     n = b['lens'][0]
                     if e['eff'][:n] != b['eff'] or e['succ'][:n] != b['succ'] or e['cs'][:n] != b['cs']:
                         probs.append('simulation %s: the %d trials of the last completed save are not kept unchanged as a prefix' % (k, n))
+            # a run that completed must have EXECUTED the trials every simulation was missing: a simulation that takes over the saved
+            # trials of another one (or counts trials twice) executes fewer
+            if ev['kind'] == 'none' and st.get('executed') is not None and not probs:
+                need = sum(max(0, a['target'] - (bmap[k]['lens'][0] if k in bmap else 0)) for k in spec)
+                if st['executed'] != need:
+                    probs.append('the run executed %d trials, but the simulations of the specification were missing %d (saved before the run: %s)'
+                                 % (st['executed'], need, {str(k): bmap[k]['lens'][0] for k in bmap}))
             if probs:
                 rep.violation(key, 'step %d of chain %s: %s' % (si, desc, '; '.join(probs[:2])), dict(ctx, problems=probs))
                 break
